@@ -1,13 +1,15 @@
 #!/bin/sh
 # usage: try_mutant.sh <patch-file> <prop> [<prop> ...]
 # Applies a patch to /repo's working tree, runs the quick checks of the given properties,
-# prints one line per property, and restores /repo (never commits).
+# prints one line per property, and restores /repo (never commits). Evidence and replay files of
+# these runs go to /tmp/vt-mut, not to /verif.
 PATCH="$1"; shift
 cd /repo || exit 2
 if ! git apply --check "$PATCH" 2>/dev/null; then echo "patch does not apply: $PATCH"; exit 2; fi
 git apply "$PATCH"
+mkdir -p /tmp/vt-mut
 for p in "$@"; do
-    out=$(cd /verif && ./check "$p" quick 2>&1)
+    out=$(cd /verif && HSIM_OUT_DIR=/tmp/vt-mut ./check "$p" quick 2>&1)
     rc=$?
     line=$(echo "$out" | grep -E "^violation:|^VIOLATION|HARNESS-ERROR" | head -2 | cut -c1-300 | tr '\n' ' ')
     echo "[$p rc=$rc] $line"
